@@ -11,6 +11,9 @@ import (
 
 const (
 	s2kParamsZero = 4294967296
+	// maxIterations is the largest PBKDF2 iteration count accepted from string-to-key parameters (the limit MIT krb5 applies).
+	// The parameters come from the KDC: without a limit one reply can keep the client computing for hours.
+	maxIterations = 0x1000000
 )
 
 // StringToKey returns a key derived from the string provided according to the definition in RFC 3961.
@@ -47,5 +50,8 @@ func S2KparamsToItertions(s2kparams string) (int64, error) {
 		return int64(s2kParamsZero), errors.New("invalid s2kparams, cannot decode string to bytes")
 	}
 	i = binary.BigEndian.Uint32(b)
+	if i == 0 || i > maxIterations {
+		return int64(s2kParamsZero), errors.New("invalid s2kparams, iteration count is outside the supported range")
+	}
 	return int64(i), nil
 }
